@@ -512,7 +512,6 @@ func (a *BigInt) M__float__() (Object, error) {
 }
 
 func (a *BigInt) M__complex__() (Object, error) {
-	// FIXME this is broken
 	if r, ok := convertToComplex(a); ok {
 		return r, nil
 	}
